@@ -17,7 +17,7 @@ CHECKS = {
             "DESIGN.md section 4 C01"),
     "C03": ("exploration", SAN + "binary128 exact interpolant with a-priori forward error bound",
             "Executions of linear<..>::at for N 1..5 x M 1..4 (N != M), float/double coordinates and storage, three layers beneath, on non-affine and one-hot "
-            "data at adversarial coordinates, each compared with the exact N-linear sum in binary128 under an operation-count error bound; lattice points bit-exact; every fourth field interpolated after dump/reload.",
+            "data at adversarial coordinates, each compared with the exact N-linear sum in binary128 under an operation-count error bound; lattice points bit-exact; every fourth field interpolated after dump/reload, every fourth after copy assignment over another field.",
             "Trusts libquadmath and the error analysis (slack factor 2, underflow term); corner values are read through the layer beneath, which C01/C14 check separately.",
             "DESIGN.md section 4 C03"),
     "C04": ("exploration", SAN + "exact distance oracle in binary128 on boundary-value workloads",
